@@ -123,6 +123,7 @@ func (fc *FnCtx) doCall(c *ssa.CallCommon, args []Val, at ssa.Value, rt types.Ty
 		if err != nil {
 			return nil, err
 		}
+		fc.havocLastRecv() // the callee may receive
 		if v != nil {
 			setResult(*v)
 		}
@@ -879,6 +880,9 @@ func (fc *FnCtx) instrMods(ins ssa.Instruction, li *loopInfo, depth int) {
 		li.mods[mh], li.mods[mv], li.mods[ml] = true, true, true
 	case *ssa.MakeChan, *ssa.Send, *ssa.Select:
 		li.mods["CN.sent"], li.mods["CN.closed"], li.mods["CN.cap"], li.mods["CN.recvd"] = true, true, true, true
+		if _, sel := ins.(*ssa.Select); sel {
+			li.mods[ghLastRecv] = true
+		}
 		switch y := ins.(type) {
 		case *ssa.Send:
 			li.mods["CL."+typeKey(y.Chan.Type().Underlying().(*types.Chan).Elem())] = true
@@ -890,6 +894,7 @@ func (fc *FnCtx) instrMods(ins ssa.Instruction, li *loopInfo, depth int) {
 	case *ssa.UnOp:
 		if x.Op.String() == "<-" {
 			li.mods["CN.recvd"] = true
+			li.mods[ghLastRecv] = true
 		}
 	case *ssa.MakeClosure, *ssa.MakeInterface:
 		// allocation only
@@ -1381,6 +1386,9 @@ func (fc *FnCtx) backEdge(from, head *ssa.BasicBlock) error {
 			if li.readsAll && (comp == ghConsumed || comp == ghCount || comp == ghFailed) {
 				continue
 			}
+			if comp == ghLastRecv {
+				continue // volatile, outside every frame
+			}
 			if (li.modHeap || (li.con != nil && li.con.ModHeap)) && !(strings.HasPrefix(comp, "GH.") || strings.HasPrefix(comp, "CN.") || strings.HasPrefix(comp, "CL.")) {
 				continue
 			}
@@ -1396,6 +1404,9 @@ func (fc *FnCtx) backEdge(from, head *ssa.BasicBlock) error {
 }
 
 func (fc *FnCtx) loopModAll(li *loopInfo, comp string) bool {
+	if comp == ghLastRecv {
+		return true
+	}
 	if li.con == nil {
 		return false
 	}
